@@ -43,4 +43,25 @@ def pixelsSlice (s : Stored) (lo hi : Nat) : Pixels := slicePx s.px lo hi
 
 def fullBox (n : Nat) : Box := ⟨0, n, 0, n⟩
 
+/-! ### integer value columns: what the column's dtype can hold
+
+The model stores unbounded integers.  The file stores an integer of `bits` bits; HDF5's own conversion
+of an out-of-range integer SATURATES (`clipInt`), so `write_pixels` checks the values first
+(`_check_fits_dtype`) and refuses the chunk: `checkedWrite`. -/
+
+def dtypeLo (signed : Bool) (bits : Nat) : Int := if signed then -(2 ^ (bits - 1) : Int) else 0
+def dtypeHi (signed : Bool) (bits : Nat) : Int := if signed then (2 ^ (bits - 1) : Int) - 1 else (2 ^ bits : Int) - 1
+
+def fitsInt (signed : Bool) (bits : Nat) (v : Int) : Bool :=
+  decide (dtypeLo signed bits ≤ v) && decide (v ≤ dtypeHi signed bits)
+
+/-- what an unchecked HDF5 write of `v` into the column would leave there -/
+def clipInt (signed : Bool) (bits : Nat) (v : Int) : Int :=
+  if v < dtypeLo signed bits then dtypeLo signed bits
+  else if dtypeHi signed bits < v then dtypeHi signed bits else v
+
+/-- the checked write of one value column: the values themselves, or a refusal (`ValueError`) -/
+def checkedWrite (signed : Bool) (bits : Nat) (vs : List Int) : Option (List Int) :=
+  if vs.all (fitsInt signed bits) then some vs else none
+
 end Cooler.Create
